@@ -125,8 +125,20 @@ Section Syncer.
     fl_depth : Z;         (* AssumedReorgDepth *)
     fl_range : Z;         (* maxRequestBlockRange / MaxRequestBlockRange *)
     fl_multi : bool;      (* control flow of MultiEventSyncer (true) or of the two single syncers *)
-    fl_swallow : bool     (* syncRange drops the error of its transaction (pinned tree, D8) *)
+    fl_swallow : bool;    (* syncRange drops the error of its transaction (pinned tree, D8) *)
+    fl_unclamped : bool   (* a sync may start below the first block (pinned tree, D9: after a rollback to a
+                             block before the sync start the resync began at that block + 1) *)
   }.
+
+  (* the first block of the next range: the block after the position, but never a block before the
+     configured start (`if start < s.SyncStartBlockNumber { start = s.SyncStartBlockNumber }` in the
+     two single syncers, `getSyncedUntil` never reporting less than SyncStartBlockNumber in the
+     multi-event syncer) *)
+  Definition start_after (fl : flavour) (status : option (Z * bytes)) : Z :=
+    match status with
+    | None => fl_first_start fl
+    | Some (k, _) => if fl_unclamped fl then k + 1 else Z.max (k + 1) (fl_first_start fl)
+    end.
 
   (* getNumReorgedBlocks / calculateReorgDepth *)
   Definition num_reorged (fl : flavour) (k : Z) (h : bytes) (nd : node) : Z :=
@@ -203,7 +215,7 @@ Section Syncer.
     if failed then (st1, Err, tr1) else
     let '(f, db) := pop db in                       (* Get...SyncedUntil / getSyncedUntil *)
     if is_fail f then (st1, Err, tr1) else
-    let start := match st_status st1 with None => fl_first_start fl | Some (k, _) => k + 1 end in
+    let start := start_after fl (st_status st1) in
     let e := n_number nd in
     if fl_multi fl && (start >? e) then (st1, Ok, tr1) else
     match get_sync_ranges start e (fl_range fl) with
@@ -273,8 +285,7 @@ Section Syncer.
   Definition quiet_before (v : view) (a : Z) : Prop := rows_of v 0 (a - 1) = [].
 
   (* the start of the next range *)
-  Definition next_start (fl : flavour) (st : state) : Z :=
-    match st_status st with None => fl_first_start fl | Some (k, _) => k + 1 end.
+  Definition next_start (fl : flavour) (st : state) : Z := start_after fl (st_status st).
 
   (* a history: each Sync call sees a view (the node's canonical branch, whose last block is the
      header passed to Sync) and two fault streams.  The ghost component remembers the view of
@@ -398,11 +409,19 @@ Definition sequencer_admissible (e : uev) := (ev_eon e <=? max_int64) && (ev_gas
 Definition sequencer_merge (old new : pev uev) : pev uev := new.
 
 Definition registry_flavour (sync_start depth range : Z) (legacy : bool) : flavour :=
-  mkflavour sync_start depth range false legacy.
+  mkflavour sync_start depth range false legacy false.
 Definition multi_flavour (sync_start depth range : Z) : flavour :=
-  mkflavour (sync_start + 1) depth range true false.
+  mkflavour (sync_start + 1) depth range true false false.
 Definition sequencer_flavour (sync_start depth range : Z) (legacy : bool) : flavour :=
-  mkflavour sync_start depth range false legacy.
+  mkflavour sync_start depth range false legacy false.
+
+(* the syncers as they were before the D9 fixes: the start of a sync was not clamped *)
+Definition legacy_unclamped_registry_flavour (sync_start depth range : Z) : flavour :=
+  mkflavour sync_start depth range false false true.
+Definition legacy_unclamped_multi_flavour (sync_start depth range : Z) : flavour :=
+  mkflavour (sync_start + 1) depth range true false true.
+Definition legacy_unclamped_sequencer_flavour (sync_start depth range : Z) : flavour :=
+  mkflavour sync_start depth range false false true.
 
 (* the two syncers as they were on the pinned tree (D8): syncRange ignored the error of its transaction *)
 Definition legacy_registry_flavour (sync_start depth range : Z) : flavour := registry_flavour sync_start depth range true.
